@@ -33,6 +33,9 @@ def main(root):
                         continue
                     if ' bad=0 ' not in line or 'errors=[]' not in line:
                         bad.append(line[:260])
+                import shutil
+                os.makedirs(os.path.join(VERIF, 'seeded', 'refactorings'), exist_ok=True)
+                shutil.copy(diff, os.path.join(VERIF, 'seeded', 'refactorings', rid + '.diff'))
                 out[rid] = {'files': files, 'tests': t.stdout.strip()[-60:], 'units_alarmed': bad}
                 print(rid, files, 'ALARM' if bad else 'quiet', len(bad))
                 for b in bad[:3]:
@@ -41,8 +44,11 @@ def main(root):
                 sh('git checkout -- . && git clean -fdq', cwd=wt)
     finally:
         sh('git -C /repo worktree remove --force %s' % wt)
-    with open(os.path.join(VERIF, 'seeded', 'REFACTORINGS.json'), 'w') as f:
-        json.dump(out, f, indent=1, sort_keys=True)
+    dest = os.path.join(VERIF, 'seeded', 'REFACTORINGS.json')
+    old = json.load(open(dest)) if os.path.exists(dest) else {}
+    old.update(out)            # rounds accumulate (patch ids R<agent>-R<k> are unique per round)
+    with open(dest, 'w') as f:
+        json.dump(old, f, indent=1, sort_keys=True)
     n = len(out)
     a = sum(1 for v in out.values() if v.get('units_alarmed'))
     print('refactorings:', n, 'raising an alarm in some unit:', a)
